@@ -176,22 +176,22 @@ def plan(ctx: Ctx, prop: str):
     abort = ("tree_failed_multi_call", c(Splits=FS({"train"}), FillerDirs=ROOT_ONLY, MaxSessions=3, MaxWrites=2, MaxK=2,
                                          MaxAborts=1), H.INVARIANTS)
     sim_tree = lambda s: (f"sim_tree_{'stream' if s else 'atclose'}",  # noqa: E731
-                          c(MaxSessions=4, MaxWrites=3, MaxK=2, Streaming=s, MaxAborts=1), n(18 if s else 54, 300 if s else 900),
+                          c(MaxSessions=4, MaxWrites=3, MaxK=2, Streaming=s, MaxAborts=1), n(18 if s else 54, 800 if s else 2500),
                           45, _targets(ctx, s), 2)
     sim_shard = lambda s, eps: (f"sim_shard_eps{eps}_{'stream' if s else 'atclose'}",  # noqa: E731
                                 c(FillerDirs=FS({(), ("s",)}), MaxK=1, MaxSessions=2, MaxWrites=2 * eps + 2, MDs=MD3,
                                   Kinds=FS({"good", "bad"}) | (FS({"badlate"}) if s else FS()), Streaming=s, EPS=eps),
-                                n(10 if s else 24, 150 if s else 450), 40, _targets(ctx, s), eps)
+                                n(10 if s else 24, 400 if s else 1200), 40, _targets(ctx, s), eps)
     sim_ref = ("sim_mutable_metadata", c(Splits=FS({"train"}), FillerDirs=ROOT_ONLY, MaxK=1, MaxSessions=2,
                                          MaxWrites=5, MDs=FS({"None", "A", "B", "REF"}), UseRef=True),
-               n(45, 600), 30, _targets(ctx, False) + _targets(ctx, True)[:1], 2)
+               n(45, 1500), 30, _targets(ctx, False) + _targets(ctx, True)[:1], 2)
     if prop in ("C04", "C08", "C03"):
         mc = [tree3, tree2s, abort] + ([] if q else [nohash, shard23])
         sanity = [("merge_without_dedupe", c(Splits=FS({"train"}), MaxSessions=2, MaxWrites=1, Dedupe=False),
                    "NoSessionFails")]
         sims = [sim_tree(False), sim_tree(True)]
         if not q:
-            sims.append(("sim_tree_no_checksums", c(MaxSessions=3, MaxWrites=3, Hashing=False), 120, 40,
+            sims.append(("sim_tree_no_checksums", c(MaxSessions=3, MaxWrites=3, Hashing=False), 300, 40,
                          [("fb", "", ()), ("npz", "", ()), ("tfrec", "", ())][:2], 2))
     elif prop == "C10":
         mc = [shard5] + ([] if q else [shard23]) + [
